@@ -20,15 +20,22 @@ go vet ./... >/dev/null 2>&1 || echo "note: vet complains"
 go test -vet=off -count=1 -timeout 25m ./... > /tmp/vs_$name.suite 2>&1 || { echo "REJECT: suite fails"; tail -20 /tmp/vs_$name.suite; exit 1; }
 go test -tags verif -vet=off -count=1 -run XXX ./... >/dev/null 2>&1 || { echo "REJECT: verif-tag build fails"; exit 1; }
 echo "suite: PASS with change"; cat /tmp/vs_$name.suite
-cp $src/seed_demo_test.go .
-go test -vet=off -count=1 -run 'TestSeedDemo$' . > /tmp/vs_$name.with 2>&1 && { echo "REJECT: demo passes with change"; exit 1; }
+# the demonstration normally sits in the root package; a sub-package demo is kept under its directory name
+pkg=.
+if [ ! -f $src/seed_demo_test.go ]; then
+  d=$(cd $src && ls */seed_demo_test.go encoding/*/seed_demo_test.go 2>/dev/null | head -1); pkg=./$(dirname $d)
+  cp $src/$d $pkg/seed_demo_test.go
+else
+  cp $src/seed_demo_test.go .
+fi
+go test -vet=off -count=1 -run 'TestSeedDemo$' $pkg > /tmp/vs_$name.with 2>&1 && { echo "REJECT: demo passes with change"; exit 1; }
 echo "demo: FAIL with change"; grep -m6 -E "seed_demo_test|FAIL" /tmp/vs_$name.with
 git apply -R $src/seed.patch
-go test -vet=off -count=1 -run 'TestSeedDemo$' . > /tmp/vs_$name.without 2>&1 || { echo "REJECT: demo fails without change"; tail /tmp/vs_$name.without; exit 1; }
+go test -vet=off -count=1 -run 'TestSeedDemo$' $pkg > /tmp/vs_$name.without 2>&1 || { echo "REJECT: demo fails without change"; tail /tmp/vs_$name.without; exit 1; }
 echo "demo: PASS without change"
 mkdir -p /verif/seeded/$name
 cp $src/seed.patch /verif/seeded/$name/patch.diff
-cp $src/seed_demo_test.go /verif/seeded/$name/seed_demo_test.go
+cp $pkg/seed_demo_test.go /verif/seeded/$name/seed_demo_test.go; echo "$pkg" > /verif/seeded/$name/demo_pkg
 { echo "== suite with change"; cat /tmp/vs_$name.suite; echo "== demo with change"; cat /tmp/vs_$name.with; echo "== demo without change"; cat /tmp/vs_$name.without; } > /verif/seeded/$name/verification.log
 rm -f /tmp/vs_$name.*
 echo "KEPT $name"
